@@ -138,13 +138,37 @@ def _fact_num(v, reg, param):
     return None
 
 
+def _fact_text_eq(a, b, reg, param):
+    """value == literal text, decided on the columns: a rendering whose digits are all zero has a known text, any other rendering holds
+    a non-zero digit"""
+    if isinstance(a, Lit) and not isinstance(b, Lit):
+        a, b = b, a
+    if not isinstance(b, Lit) or isinstance(a, Lit):
+        return None
+    ms = fixed_models(a, reg, param)
+    if not ms or len(ms) != 1 or ms[0].corrupt:
+        return None
+    t = ms[0].text()
+    if t is not None:
+        return t == b.s
+    if not any(ch in "123456789" for ch in b.s):
+        return False
+    return None
+
+
 def feasible(leaf, reg, param):
-    """False when a recorded test outcome contradicts the columns of the regime (e.g. `field.index('.') < 8`)"""
+    """False when a recorded test outcome contradicts the columns of the regime (e.g. `field.index('.') < 8`, `field2 == '.'`)"""
     for f in leaf.state.facts:
         vals = f[3] if len(f) > 3 else None
         if not vals:
             continue
         op, a, b = vals
+        if isinstance(op, (ast.Eq, ast.NotEq)):
+            r = _fact_text_eq(a, b, reg, param)
+            if r is not None:
+                if (r == isinstance(op, ast.Eq)) != f[1]:
+                    return False
+                continue
         x, y = _fact_num(a, reg, param), _fact_num(b, reg, param)
         if x is None or y is None:
             continue
@@ -162,7 +186,7 @@ def fact_precisions(leaf, param):
         vals = f[3] if len(f) > 3 else None
         if vals:
             for v in vals[1:]:
-                if not is_num(v):
+                if not is_num(v) and not isinstance(v, Lit):
                     precisions_in(v, param, acc)
     return acc
 
@@ -210,6 +234,19 @@ class FloatAnalysis:
                     if not feasible(lf, reg, self.param):
                         continue
                     out.append((reg, fixed_models(lf.value, reg, self.param), fixed_models(inner_of(lf.value), reg, self.param)))
+        return out
+
+    def feasible_decades(self, lf):
+        """[(neg, k)] in which some rounding case satisfies the recorded tests of the path"""
+        out = []
+        precs = precisions_in(lf.value, self.param) | fact_precisions(lf, self.param)
+        for neg in (False, True):
+            rng = _abs_range(lf.iv, neg)
+            if rng is None:
+                continue
+            for k in decades(rng):
+                if any(feasible(lf, reg, self.param) for reg in regimes(rng, k, precs, neg)):
+                    out.append((neg, k))
         return out
 
     def covering(self, neg, k, pk):
@@ -334,10 +371,13 @@ def first_stage_precision(v, param):
 
 
 SCI_INTERVALS = [
-    ("negative, |x| >= 1", Interval(None, False, Fraction(-1), True), True, False),
-    ("negative, |x| < 1", Interval(Fraction(-1), False, Fraction(0), False), True, True),
-    ("positive, |x| < 1", Interval(Fraction(0), False, Fraction(1), False), False, True),
-    ("positive, |x| >= 1", Interval(Fraction(1), True, None, False), False, False),
+    # (label, interval, negative, |x| < 1, exponent is 0)
+    ("negative, |x| >= 10", Interval(None, False, Fraction(-10), True), True, False, False),
+    ("negative, 1 <= |x| < 10", Interval(Fraction(-10), False, Fraction(-1), True), True, False, True),
+    ("negative, |x| < 1", Interval(Fraction(-1), False, Fraction(0), False), True, True, False),
+    ("positive, |x| < 1", Interval(Fraction(0), False, Fraction(1), False), False, True, False),
+    ("positive, 1 <= |x| < 10", Interval(Fraction(1), True, Fraction(10), False), False, False, True),
+    ("positive, |x| >= 10", Interval(Fraction(10), True, None, False), False, False, False),
 ]
 
 
